@@ -33,9 +33,9 @@ func (c06) Probes() []string {
 }
 func (c06) Runs(tier string) int {
 	if tier == "thorough" {
-		return 1200000
+		return 2000000
 	}
-	return 24000
+	return 120000
 }
 
 func c06Opts(tier string) core.HistOpts {
